@@ -51,6 +51,14 @@ Definition ready_is_true (sp : br_spec) (st : br_status) (w : cloneset) (o : br_
     | None => false end
   else true.
 
+(* ... and that observation is current: Ready is never entered on a workload whose controller has not yet observed the
+   latest spec (status.observedGeneration behind metadata.generation: the counters describe an older template) *)
+Definition ready_needs_a_current_status (sp : br_spec) (st : br_status) (w : cloneset) (o : br_obs) : bool :=
+  let n := bo_status o in
+  let entered := bstate_eqb (bs_state n) SReady && brphase_eqb (bs_phase n) PhProgressing &&
+                 negb (bstate_eqb (bs_state st) SReady && (bs_batch st =? bs_batch n)) in
+  if entered then negb (w_exists w) || negb (w_obs_gen w <? w_gen w) else true.
+
 (* the batch cursor never advances beyond batchPartition *)
 Definition never_beyond_partition (sp : br_spec) (st : br_status) (o : br_obs) : bool :=
   let n := bo_status o in
@@ -119,6 +127,7 @@ Definition judge (c : case) : list verdict :=
         then bo_err o || bo_requeue o || negb (status_eqb st (bo_status o)) else true) ]) ++
   (if bo_panic o || bo_gone o then [] else
    [ clause "C11_ready_is_true" (ready_is_true sp st w o);
+     clause "C11_ready_needs_a_current_workload_status" (ready_needs_a_current_status sp st w o);
      clause "C11_never_beyond_partition" (never_beyond_partition sp st o);
      clause "C11_completed_means_released" (completed_means_released sp st w o);
      clause "C11_falls_back" (falls_back sp st w o);
